@@ -104,13 +104,14 @@ let scontent_of_string s =
                                 | _ -> failwith "bad char") (S.split_on_char '|' chars))
   | _ -> failwith "bad content"
 
-(* python values: N | B0 | B1 | I<int> | S<hex of code points (ASCII)> *)
+(* python values: N | B0 | B1 | I<int> | S<hex of code points (ASCII)> | U<code points in decimal, '.'-separated (any str)> *)
 let pyval_of_string s =
   if s = "N" then VNone else
   match (S.get s (0)) with
   | 'B' -> VBool (s = "B1")
   | 'I' -> VInt (zi (S.sub s 1 (S.length s - 1)))
   | 'S' -> VStr (bytes_of_hex (S.sub s 1 (S.length s - 1)))
+  | 'U' -> VStr (L.map zi (S.split_on_char '.' (S.sub s 1 (S.length s - 1))))
   | _ -> failwith "bad pyval"
 let string_of_ozres = function Ok o -> "OK " ^ soz o | Err e -> "ERR " ^ string_of_exn e
 
@@ -561,6 +562,19 @@ let handle toks =
                (pyval_of_string mode) (pyval_of_string mask) (eci = "1") (pyval_of_string micro) (boost = "1") with
        | Ok c -> string_of_code c
        | Err e -> "ERR " ^ string_of_exn e)
+  | ["int_tables"] -> string_of_zlist coq_UNI_SPACES ^ " " ^ string_of_zlist coq_DECIMAL_ZEROS
+  (* the non-ASCII code points whose str.lower() / str.upper() contains an ASCII character, with their images (Base/PyCase.v):
+     <c>:<image code points>;...  for lower, then the same for upper *)
+  | ["case_tables"] ->
+      let f l = join_or_dash ";" (L.map (fun (c, img) -> string_of_int (int_of_z c) ^ ":" ^ string_of_zlist img) l) in
+      f PyCase.coq_LOWER_SPECIAL ^ " " ^ f PyCase.coq_UPPER_SPECIAL
+  (* color_rgba <colour token> <alpha_float 0/1> -> OK r,g,b,a (a in units of 1/10000 when alpha_float) | ERR <exception> *)
+  | ["color_rgba"; c; af] ->
+      (match color_of_string c with
+       | None -> "ERR bad colour"
+       | Some col -> (match Color.color_to_rgba col (af = "1") with
+                      | Ok l -> "OK " ^ string_of_zlist l
+                      | Err e -> "ERR " ^ string_of_exn e))
   | ["norm_version"; v] -> string_of_ozres (normalize_version (pyval_of_string v))
   | ["norm_mode"; v] -> string_of_ozres (normalize_mode (pyval_of_string v))
   | ["norm_mask"; v; micro] -> string_of_ozres (normalize_mask (pyval_of_string v) (micro = "1"))
